@@ -283,7 +283,9 @@ fn make_form(tag: &str, rng: &mut Rng, len: usize, vals: &[i64], t: i64) -> Op {
         "l.match.others" => Op::InitVia,
         "m.clear" => Op::MClear,
         "m.contains_key" => Op::Has(some_val),
-        "m.extend" => Op::MExtend(vec![(some_val, new), (vals.first().copied().unwrap_or(1) + 500, new)]),
+        // keys keep one width (one digit in small maps, three in large ones): the order of the
+        // 'k<n>' strings must be the numeric order the model sorts by
+        "m.extend" => Op::MExtend(vec![(some_val, new), (if vals.iter().all(|k| *k < 10) { rng.range(0, 9) } else { vals.first().copied().unwrap_or(100) % 100 + 500 }, new)]),
         "m.get" => Op::MGet(some_val),
         "m.get_index" => Op::GetI(near(rng)),
         "m.insert2" => Op::Ins(some_val, new),
